@@ -145,7 +145,7 @@ class C07:
                    "reserved column names (ids, index, _packed) are not used as row keys",
                    "float comparison allows 1e-5 (either rounding direction of the documented 5-decimals normalisation)",
                    "sequence type (list vs tuple) and int-vs-float representation never decide a violation",
-                   "interruption only at record boundaries after the experiment record (torn tails belong to C02)"]
+                   "interruption after the experiment record, at a record boundary or inside the next record (exhaustive torn-tail offsets belong to C02)"]
     real_components = ["Experiment.run", "TransactionEncode/Decode/Result", "coba.json", "minimize", "DiskSink/DiskSource (plain and .gz, real files)",
                        "ListSink/ListSource", "MakeTasks (restore path)", "ProcessTasks", "CobaMultiprocessor/Multiprocessor", "Table.insert"]
     stub_components = ["multiprocessing/threading primitives (as C01)", "recording evaluators / learners / environments (harness)"]
@@ -166,7 +166,8 @@ class C07:
         spec = {"envs": envs, "learners": lrns, "evaluators": vals, "shape": "product", "seed": 1, "quiet": True,
                 "description": weighted(rng, [(None, 1), ("désc \"q\"\nnl", 1)]), "homogeneous": homogeneous}
         return {"spec": spec, "config": X.gen_config(rng), "knobs": X.gen_knobs(rng), "cut": rng.random(),
-                "resume_sim": rng.random() < 0.4, "file_sim": rng.random() < 0.5}
+                "resume_sim": rng.random() < 0.4, "file_sim": rng.random() < 0.5,
+                "torn_cut": weighted(rng, [(None, 1), (rng.random(), 1)]), "stale_partial": weighted(rng, [(None, 2), (rng.random(), 1)])}
 
     # ------------------------------------------------------------------
     def run(self, cfg, seed, choices=None):
@@ -227,9 +228,21 @@ class C07:
                 if len(ends) > 2:
                     k = 2 + int(cfg["cut"] * (len(ends) - 2))
                     fd = os.path.join(tmp, "d.log")
+                    cut_at = ends[k - 1]
+                    if cfg.get("torn_cut") and k < len(ends):
+                        # inside the next record (a torn tail is repaired by the restore path)
+                        cut_at = ends[k - 1] + 1 + int(cfg["torn_cut"] * max(0, ends[k] - ends[k - 1] - 2))
+                        out["counters"]["fault.crash_inside_record"] = 1
+                        if cfg.get("stale_partial") is not None:
+                            # ... and an earlier repair was killed too, leaving a stale '<file>.partial'
+                            keep = data[:ends[k - 1]]
+                            with open(fd + ".partial", "wb") as f:
+                                f.write(keep[:int(cfg["stale_partial"] * len(keep))])
+                            out["counters"]["fault.crash_during_repair_stale_partial"] = 1
+                    else:
+                        out["counters"]["fault.crash_at_record_boundary"] = 1
                     with open(fd, "wb") as f:
-                        f.write(data[:ends[k - 1]])
-                    out["counters"]["fault.crash_at_record_boundary"] = 1
+                        f.write(data[:cut_at])
                     if cfg["resume_sim"]:
                         sim2, oc2, res_d, _, _ = X.run_simulated(spec, cfg["config"], seed ^ 0x5A5A, None, result_file=fd, knobs=cfg["knobs"])
                         if oc2 != "done" or "exc" in sim2.result:
